@@ -88,7 +88,8 @@ def direct_sweep(ld, N):
         for make, what in ((lambda d: d.batch(2), 'batch(2)'), (lambda d: d.batch(3, drop_last=True), 'batch(3, drop_last=True)'),
                            (lambda d: d.batch(2, drop_last=True), 'batch(2, drop_last=True)'), (lambda d: d.batch(4, drop_last=True), 'batch(4, drop_last=True)'),
                            (lambda d: d[1:], 'ds[1:]'), (lambda d: d.concatenate(d), 'concatenate(ds, ds)'), (lambda d: d.concatenate(d[:2], d.map(_same15)), 'concatenate(ds, ds[:2], ds.map)'),
-                           (lambda d: d.tile(3), 'tile(3)'), (lambda d: d[:1].concatenate(d, d[1:], d[:0], d), 'concatenate of five'), (lambda d: d.map(_same15), 'map'),
+                           (lambda d: d.tile(3), 'tile(3)'), (lambda d: d.cache().batch(3), 'cache().batch(3)'), (lambda d: d.map(_same15).cache().batch(2), 'map.cache().batch(2)'),
+                           (lambda d: d[::-1].batch(2), 'ds[::-1].batch(2)'), (lambda d: d.sort(_same15).batch(3), 'sort.batch(3)'), (lambda d: d.concatenate(d).batch(4), 'concatenate(ds, ds).batch(4)'), (lambda d: d[:1].concatenate(d, d[1:], d[:0], d), 'concatenate of five'), (lambda d: d.map(_same15), 'map'),
                            (lambda d: d.batch(2).map(_same15), 'batch(2).map'), (lambda d: d.batch(5, drop_last=True).map(_same15)[::-1], 'batch(5, drop_last=True).map[::-1]')):
             try:
                 ds = make(ld.new(list(range(m))))
